@@ -14,17 +14,90 @@ def build_graph(g: dict, how: str = "auto") -> NxMixedGraph:
     """Build the y0 graph of a case.  ``how``: "from_edges" (one go), "incremental" (grown with add_* calls and
     read-only queries in between, see build_graph_incremental) or "auto": a deterministic third of all graphs (chosen by
     a hash of the graph's content) is built incrementally, so every property also sees graph objects with a history."""
+    carried = _carry_lookup(g)
+    if carried is not None:
+        return carried
     if how == "auto":
         import zlib
 
         how = "incremental" if zlib.crc32(graph_key(g).encode()) % 3 == 0 and all(u != v for u, v in g["di"]) else "from_edges"
     if how == "incremental":
-        return build_graph_incremental(g)
-    return NxMixedGraph.from_edges(
-        nodes=[V(n) for n in g["nodes"]],
-        directed=[(V(u), V(v)) for u, v in g["di"]],
-        undirected=[(V(u), V(v)) for u, v in g["bi"]],
+        return _carry_store(g, build_graph_incremental(g))
+    return _carry_store(
+        g,
+        NxMixedGraph.from_edges(
+            nodes=[V(n) for n in g["nodes"]],
+            directed=[(V(u), V(v)) for u, v in g["di"]],
+            undirected=[(V(u), V(v)) for u, v in g["bi"]],
+        ),
     )
+
+
+# ---------------------------------------------------------------------------
+# "query, edit, query again" histories (see common.run_check): the property's own check is first run on the case's
+# graph with some edges missing; the y0 graph object built for that run is kept, the missing edges are added to it
+# through the public add_* API, and the real check then receives THAT object from build_graph.
+
+_CARRY = {"stage": 0, "g0": None, "g": None, "obj": None, "used": False}
+
+
+def history_plan(case):
+    """None, or (g0, g): g0 = the case's graph with a deterministic, non-empty subset of its edges removed.  Chosen for a
+    quarter of the cases by a hash of the case, so a case always behaves the same way (replays included)."""
+    import json
+    import zlib
+
+    g = case.get("g") if isinstance(case, dict) else None
+    if not isinstance(g, dict) or not {"nodes", "di", "bi"} <= set(g) or not (g["di"] or g["bi"]):
+        return None
+    if any(u == v for u, v in g["di"]):
+        return None
+    h = zlib.crc32(json.dumps(case, sort_keys=True, default=str).encode())
+    if h % 4:
+        return None
+    from .common import SplitMix
+
+    rng = SplitMix(h)
+    edges = [("d", i) for i in range(len(g["di"]))] + [("b", i) for i in range(len(g["bi"]))]
+    drop = {e for e in edges if rng.below(3) == 0} or {edges[rng.below(len(edges))]}
+    g0 = dict(g)
+    g0["di"] = [e for i, e in enumerate(g["di"]) if ("d", i) not in drop]
+    g0["bi"] = [e for i, e in enumerate(g["bi"]) if ("b", i) not in drop]
+    return g0, g
+
+
+def carry_begin(g0, g):
+    _CARRY.update(stage=1, g0=graph_key(g0), g=graph_key(g), full=g, part=g0, obj=None, used=False)
+
+
+def carry_second_stage():
+    _CARRY["stage"] = 2
+
+
+def carry_end():
+    _CARRY.update(stage=0, g0=None, g=None, full=None, part=None, obj=None, used=False)
+
+
+def _carry_store(g, obj):
+    if _CARRY["stage"] == 1 and _CARRY["obj"] is None and graph_key(g) == _CARRY["g0"]:
+        _CARRY["obj"] = obj
+    return obj
+
+
+def _carry_lookup(g):
+    if _CARRY["stage"] != 2 or _CARRY["used"] or _CARRY["obj"] is None or graph_key(g) != _CARRY["g"]:
+        return None
+    _CARRY["used"] = True
+    obj, part, full = _CARRY["obj"], _CARRY["part"], _CARRY["full"]
+    have_d = {tuple(e) for e in part["di"]}
+    have_b = {frozenset(e) for e in part["bi"]}
+    for u, v in full["di"]:
+        if (u, v) not in have_d:
+            obj.add_directed_edge(V(u), V(v))
+    for u, v in full["bi"]:
+        if frozenset((u, v)) not in have_b:
+            obj.add_undirected_edge(V(u), V(v))
+    return obj
 
 
 def reinsert(g: dict) -> dict:
@@ -226,3 +299,25 @@ def build_graph_incremental(g: dict, probe: bool = True, strict_probes: bool = F
         if idx < len(missing_later) - 1:
             look()
     return graph
+
+
+def as_iterable(items, k: int):
+    """The same collection of values presented the way different callers pass an ``Iterable`` argument: list, tuple,
+    set, frozenset, dict keys, a one-shot iterator or a generator (chosen by ``k``); empty collections also as None."""
+    items = list(items)
+    k = k % 8
+    if k == 0:
+        return items
+    if k == 1:
+        return tuple(items)
+    if k == 2:
+        return set(items)
+    if k == 3:
+        return frozenset(items)
+    if k == 4:
+        return dict.fromkeys(items).keys()
+    if k == 5:
+        return iter(items)
+    if k == 6:
+        return (x for x in items)
+    return items if items else None
